@@ -15,7 +15,7 @@ package main
 //@ import "encoding/pem"
 //@ import "net"
 //@ import "database/sql"
-//@ use strings nethttp fmt oauth2 neturl time ssh crypto errors x509 keymasterd_jose pwauth cfssl math keymasterd_rate logging sync html sql bytes
+//@ use strings nethttp fmt oauth2 neturl time ssh crypto errors x509 keymasterd_jose pwauth cfssl math keymasterd_rate logging sync html sql bytes shell
 
 // ---- C17: post-login redirects stay on the keymaster origin ------------------------------------
 //@ pure func noControlBytes(s string) bool = (forallIdx j int :: 0 <= j && j < len(s) ==> s[j] >= 0x20 && s[j] != 0x7f)
@@ -1026,3 +1026,14 @@ package main
 //@ func (*RuntimeState).idpOpenIDCJWKSHandler
 //@   loop 1 (currentKeys jose.JSONWebKeySet, rangeindex int) invariant len(currentKeys.Keys) == rangeindex + 1   #C12.jwks-scan @C12
 //@   atcall encoding/json.Marshal requires (v any) :: isType[jose.JSONWebKeySet](v) ==> len(asType[jose.JSONWebKeySet](v).Keys) == len(state.KeymasterPublicKeys)   #C12.jwks-serves-one-entry-per-keymaster-key @C12,C09
+
+// ---- C02 "exactly the standard extensions plus the operator-configured ones": every configured extension, expanded
+// for this user, is handed to the generator (none skipped, whatever its value), and nothing else is
+//@ go:
+//@ type sshMapperFn = func(string) string
+//@ end
+//@ ghost var ghostSSHMapper sshMapperFn
+//@ func (*RuntimeState).expandSSHExtensions
+//@   atcall mvdan.cc/sh/v3/shell.Expand sets ghostSSHMapper sshMapperFn (s string, env sshMapperFn, out string, err error) :: env
+//@   loop 1 (userExtensions map[string]string, mapper sshMapperFn, rangeindex int) invariant (forall j int :: 0 <= j && j <= rangeindex ==> hasKey(userExtensions, shellExpanded(state.Config.Base.SSHCertConfig.Extensions[j].Key, mapper))) && (rangeindex >= 0 ==> same(ghostSSHMapper, mapper))   #C02.configured-extension-scan @C02
+//@   ensures ret1 == nil ==> (forall j int :: 0 <= j && j < len(state.Config.Base.SSHCertConfig.Extensions) ==> hasKey(ret0, shellExpanded(state.Config.Base.SSHCertConfig.Extensions[j].Key, ghostSSHMapper)))   #C02.every-configured-extension-is-handed-on @C02
